@@ -28,6 +28,7 @@ EXPLANATION += " R03.18: in the anchored modules and the shared text utilities n
 EXPLANATION += " R03.19: program text that is moved is not whitespace-normalised (the result of `\" \".join(text.split())` is only ever compared, never emitted)."
 EXPLANATION += " R03.20: the return-is-last test behind the refusal does not look through a try statement that has handlers."
 EXPLANATION += " R03.21: no `.add(*names)` in the extraction code (set.add / OrderedSet.add take one key: `global a, b` in the host made every extraction a TypeError)."
+EXPLANATION += " R03.23: the collector's handler of a compound statement hands every node-valued field of the statement on to the visitor (summaries are call-site sensitive)."
 EXPLANATION += " R03.22: a write after the region enters the set of certain later writes only under the negation of the flag set for conditional blocks that reach past the region."
 ASSUMPTIONS = [
     "the break/continue finder lacking AsyncFor and the missing scope cuts of the return counter only cause over-refusal, which the property allows: recorded as exceptions, not armed (R03.5 arms only the under-refusal direction: else clauses)",
@@ -129,10 +130,30 @@ def _check_body(ctx, res) -> None:
         m = coll.methods[mname]
         for attr in sorted(mgrs[mname]):
             stores = [n for n in walk_local(m.node) if isinstance(n, (ast.Assign, ast.AugAssign))
-                      and any(is_self_attr(t, attr) for t in (n.targets if isinstance(n, ast.Assign) else [n.target]))]
+                      and any(is_self_attr(t, attr) or (isinstance(t, ast.Tuple) and any(is_self_attr(e, attr) for e in t.elts))
+                              for t in (n.targets if isinstance(n, ast.Assign) else [n.target]))]
             fin = [n for t in walk_local(m.node) if isinstance(t, ast.Try) for s_ in t.finalbody for n in [s_, *ast.walk(s_)] if n in stores]
             ok = None
-            if fin:
+            if fin and isinstance(fin[-1], ast.Assign) and isinstance(fin[-1].targets[0], ast.Tuple):
+                # `self.a, self.b = saved` with `saved = (self.a, self.b)` before the block (or `= (was_a, was_b)`): element by element
+                f0 = fin[-1]
+                tgt = f0.targets[0]
+                pos = next((i for i, e in enumerate(tgt.elts) if is_self_attr(e, attr)), None)
+                val = f0.value
+                if isinstance(val, ast.Name):
+                    defs = [n.value for n in walk_local(m.node) if isinstance(n, ast.Assign) and len(n.targets) == 1
+                            and isinstance(n.targets[0], ast.Name) and n.targets[0].id == val.id]
+                    val = defs[0] if len(defs) == 1 else None
+                if pos is not None and isinstance(val, ast.Tuple) and len(val.elts) == len(tgt.elts):
+                    e = val.elts[pos]
+                    if isinstance(e, ast.Constant):
+                        ok = False
+                    elif is_self_attr(e, attr):
+                        ok = True
+                    elif isinstance(e, ast.Name):
+                        ok = any(isinstance(n, ast.Assign) and isinstance(n.targets[0], ast.Name) and n.targets[0].id == e.id and is_self_attr(n.value, attr)
+                                 for n in walk_local(m.node))
+            elif fin:
                 f0 = fin[-1]
                 if isinstance(f0, ast.AugAssign):
                     ok = any(isinstance(s_, ast.AugAssign) and type(s_.op) is not type(f0.op) for s_ in stores)
@@ -483,6 +504,7 @@ def _check_body(ctx, res) -> None:
 
 def check(ctx, res) -> None:
     _check_body(ctx, res)
+    _compound_children_rule(ctx, res)
     from .common import memo_key_rule
 
     from .common import identifier_char_rule
@@ -651,3 +673,36 @@ def _later_conditional_write_rule(ctx, res) -> None:
                     "return is taken to see the later write, `b` is not returned from the helper, and the call site becomes a bare `new(a)` -- f(1) gives 0 instead of 2",
                     function=m.qualname, flags=sorted(flags))
     res.floor("R03.22", "entries into the set of certain later writes", n, 1)
+
+
+_COMPOUND = ("For", "AsyncFor", "While", "If", "Try", "TryStar", "With", "AsyncWith", "Match", "match_case", "ExceptHandler")
+
+
+def _compound_children_rule(ctx, res) -> None:
+    """R03.23: the flow summary is complete only if the collector SEES every statement and expression of the host function.  A handler of
+    the collector for a compound statement therefore hands every node-valued field of the statement on to the visitor -- the `orelse`
+    of a loop as well as its body, the handlers and the `finalbody` of a try -- through the generic walk over all children or field by
+    field.  (The visitor summaries are call-site sensitive: a helper that walks "all children unless it is told which" counts as walking
+    what it was told.)  A part that is never visited does not exist for extract: a name the region defines and only a for-else reads is
+    not returned."""
+    idx = ctx.idx
+    v = vgc_mod.get(ctx)
+    n = 0
+    for c in _COMPOUND:
+        if c not in G.ctors:
+            continue
+        h = v.handler(COLLECTOR, c)
+        if h is None:
+            continue  # no handler: the generic traversal visits every child
+        s = v.summary(COLLECTOR, h)
+        paths = {p for e in s.visits() for p in e.paths}
+        need = [f.name for f in G.ctors[c].fields if f.is_node]
+        missing = [f for f in need if "*" not in paths and not any(p == f or p.startswith(f + ".") for p in paths)]
+        n += 1
+        res.add("R03.23", f"{COLLECTOR.split('.')[-1]}.{h.name}|{c}|every-part-is-visited", not missing, h.where,
+                f"every node-valued field of {c} ({', '.join(need)}) is handed on to the visitor" if not missing else
+                f"the collector's handler for {c} never visits {c}.{missing[0]}"
+                + (f" (and {', '.join(missing[1:])})" if len(missing) > 1 else "")
+                + ": reads and writes there do not exist for extract -- a name the region assigns that is read only in the `else` of a later "
+                "`for` loop is not returned, the extraction is accepted and the host raises NameError (or silently uses an old value)", function=h.qualname)
+    res.floor("R03.23", "handlers of compound statements in the flow collector", n, 5)
